@@ -215,6 +215,18 @@ def check_transform(spec):
 
 
 def main_():
+    if sys.argv[1] == 'replay':
+        spec = json.loads(sys.argv[2])
+        if 'ops' in spec:
+            v = check_transform(spec)
+        elif 'T' in spec:
+            v = check_helix(spec)
+        elif 'R' in spec:
+            v = check_arc(spec)
+        else:
+            v = check_wire(spec)[0]
+        print(json.dumps({'cases': 1, 'violations': v}, default=str))
+        return
     seed, count = int(sys.argv[2]), int(sys.argv[3])
     rng = random.Random(seed)
     out = {'cases': 0, 'nontrivial': 0, 'violations': [], 'samples': []}
